@@ -472,6 +472,12 @@ def gen_simple(rng, tier):
         fac = rng.random() < 0.5        # constructor or the factory's Create: the same processor
         out.append(Case(f'{kind} ' + ' '.join(map(str, counts)).replace(' ', 'f ' if fac else ' ', 1) + ' ; ' + ' ; '.join(f't{t}' for t in sched),
                         'd_ssp' if kind == 'ssp' else 'd_slp', (kind, 'random', 'ctor-factory' if fac else 'ctor-plain')))
+    # a slow exporter: thread 0 is inside Export while thread 1 goes through the whole fast loop of the spin lock (100
+    # iterations), its yield and its sleep; Export returns when the waiter is at each position around them
+    for kind in ('ssp', 'slp'):
+        for n in (range(94, 114) if big else range(98, 110)):
+            out.append(Case(f'{kind} 2 2 ; t0 ; t0 ; t0 ; ' + ' ; '.join(['t1'] * n) + ' ; t0 ; t0 ; t0 ; ' + ' ; '.join(['t1'] * 6 + ['t0'] * 5 + ['t1'] * 6),
+                            'd_ssp' if kind == 'ssp' else 'd_slp', (kind, 'slow-export-handover-around-yield')))
     return out
 
 
